@@ -237,6 +237,21 @@ static void check_doc(Ctx &ctx, const std::string &doc, uint64_t salt)
 			if (!same_val(nr.v, d.v, why, DBL_JUDGE))
 				ctx.fail(std::string("default-value-") + KNAME[x.k], "default mode value wrong for " + where + ": " + why);
 		}
+		if (x.k == K_TRAILING_BYTES && parse_fresh(x.text, 0, 32, false).err == json_tokener_success)
+		{
+			// default mode through the descriptor entry point: trailing bytes after the value are ignored there too
+			json_object *fo = nullptr;
+			if (parse_via_fd(x.text, (int)(xi & 1) * 3, 0, &fo))
+			{
+				Val fv = dump(fo);
+				bool has = fo != nullptr;
+				json_object_put(fo);
+				std::string fwhy;
+				if (has != (ref.v.k != Val::Null) || !same_val(ref.v, fv, fwhy, DBL_JUDGE))
+					ctx.fail("default-rejects-trailing_bytes", std::string(xi & 1 ? "json_object_from_file" : "json_object_from_fd") + " (default mode) " +
+					                                               (has ? "returns another value for " : "rejects ") + where + " " + fwhy);
+			}
+		}
 		if (x.k == K_TRAILING_BYTES && (d.end < x.value_end || d.end > x.value_end + 1))
 			ctx.fail("default-trailing-end", "default mode reported end " + str(d.end) + ", the value ends at " + str(x.value_end) + ": " + where);
 	}
